@@ -1247,3 +1247,99 @@ example : putIdx ⟨[['a'], ['\n'], ['\n'], ['b']], 2, true⟩ true = 2 := by de
 example : putIdx ⟨[['a'], ['\n'], ['\n'], ['b']], 0, true⟩ true = 1 := by decide
 
 end Vicut.LineEnd
+
+/-! # Paragraph motions `}` and `{` -/
+namespace Vicut.Paragraph
+open Vicut
+
+/-- **One step never passes the edges and never turns round**: going forward the line number does not
+decrease and stays at or below the last line; going backward it does not increase. -/
+theorem paraLoop_range (gs : List Gr) (last : Nat) (fwd : Bool) (left f curr : Nat) (ds first : Bool) (r : Nat)
+    (hc : curr ≤ last) (h : paraLoop gs last fwd left f curr ds first = some r) :
+    r ≤ last ∧ (fwd = true → curr ≤ r) ∧ (fwd = false → r ≤ curr) := by
+  induction f generalizing curr ds first with
+  | zero => simp [paraLoop] at h; subst h; exact ⟨hc, fun _ => Nat.le_refl _, fun _ => Nat.le_refl _⟩
+  | succ f ih =>
+    simp only [paraLoop] at h
+    split at h
+    · cases h; exact ⟨hc, fun _ => Nat.le_refl _, fun _ => Nat.le_refl _⟩
+    · split at h
+      · split at h
+        · exact absurd h (by simp)
+        · cases h; exact ⟨hc, fun _ => Nat.le_refl _, fun _ => Nat.le_refl _⟩
+      · rename_i hedge
+        cases fwd with
+        | true =>
+          simp only [Bool.true_and, Bool.not_true, Bool.false_and, Bool.or_false, beq_iff_eq] at hedge
+          simp only [↓reduceIte] at h
+          obtain ⟨a, b, c⟩ := ih (curr + 1) _ _ (by omega) h
+          exact ⟨a, fun _ => by have := b rfl; omega, fun hf => absurd hf (by simp)⟩
+        | false =>
+          simp only [Bool.false_and, Bool.not_false, Bool.true_and, Bool.false_or, beq_iff_eq] at hedge
+          simp only [Bool.false_eq_true, ↓reduceIte] at h
+          obtain ⟨a, b, c⟩ := ih (curr - 1) _ _ (by omega) h
+          exact ⟨a, fun hf => absurd hf (by simp), fun _ => by have := c rfl; omega⟩
+
+/-- **`}` never goes up and `{` never goes down**, however many steps, and the line reached exists. -/
+theorem paraGo_range (gs : List Gr) (last : Nat) (fwd : Bool) (count curr r : Nat) (hc : curr ≤ last)
+    (h : paraGo gs last fwd count curr = some r) :
+    r ≤ last ∧ (fwd = true → curr ≤ r) ∧ (fwd = false → r ≤ curr) := by
+  induction count generalizing curr with
+  | zero => simp [paraGo] at h; subst h; exact ⟨hc, fun _ => Nat.le_refl _, fun _ => Nat.le_refl _⟩
+  | succ k ih =>
+    simp only [paraGo] at h
+    cases hl : paraLoop gs last fwd k (last + 2) curr false true with
+    | none => simp [hl] at h
+    | some c =>
+      simp only [hl] at h
+      obtain ⟨a1, b1, c1⟩ := paraLoop_range gs last fwd k (last + 2) curr false true c hc hl
+      obtain ⟨a2, b2, c2⟩ := ih c a1 h
+      exact ⟨a2, fun hf => Nat.le_trans (b1 hf) (b2 hf), fun hf => Nat.le_trans (c2 hf) (c1 hf)⟩
+
+/-- A step that stops before the edge stops on an empty line. -/
+theorem paraLoop_stops_on_empty (gs : List Gr) (last : Nat) (fwd : Bool) (left f curr : Nat) (ds first : Bool) (r : Nat)
+    (h : paraLoop gs last fwd left f curr ds first = some r) (hf : f > last + 1 - (if fwd then curr else last - curr))
+    (hc : curr ≤ last) (hne : (fwd = true → r ≠ last) ∧ (fwd = false → r ≠ 0)) : lineEmpty gs r = true := by
+  induction f generalizing curr ds first with
+  | zero => omega
+  | succ f ih =>
+    simp only [paraLoop] at h
+    split at h
+    · rename_i hstop
+      cases h
+      simp only [Bool.and_eq_true] at hstop
+      exact hstop.2
+    · split at h
+      · rename_i hedge
+        split at h
+        · exact absurd h (by simp)
+        · cases h
+          cases fwd with
+          | true =>
+            simp only [Bool.true_and, Bool.not_true, Bool.false_and, Bool.or_false, beq_iff_eq] at hedge
+            exact absurd hedge (hne.1 rfl)
+          | false =>
+            simp only [Bool.false_and, Bool.not_false, Bool.true_and, Bool.false_or, beq_iff_eq] at hedge
+            exact absurd hedge (hne.2 rfl)
+      · rename_i hedge
+        cases fwd with
+        | true =>
+          simp only [Bool.true_and, Bool.not_true, Bool.false_and, Bool.or_false, beq_iff_eq] at hedge
+          simp only [↓reduceIte] at h hf
+          exact ih (curr + 1) _ _ h (by simp only [↓reduceIte]; omega) (by omega)
+        | false =>
+          simp only [Bool.false_and, Bool.not_false, Bool.true_and, Bool.false_or, beq_iff_eq] at hedge
+          simp only [Bool.false_eq_true, ↓reduceIte] at h hf
+          exact ih (curr - 1) _ _ h (by simp only [Bool.false_eq_true, ↓reduceIte]; omega) (by omega)
+
+/-- "aa", "", "bb", "cc", "", "dd": `}` from the first line stops on the empty line 1, twice on line 4, three
+times on the last line, and four times fails; `{` from line 3 stops on line 1. -/
+example : paraGo [['a'], ['a'], ['\n'], ['\n'], ['b'], ['b'], ['\n'], ['c'], ['c'], ['\n'], ['\n'], ['d'], ['d'], ['\n']] 5 true 1 0 = some 1 := by decide
+example : paraGo [['a'], ['a'], ['\n'], ['\n'], ['b'], ['b'], ['\n'], ['c'], ['c'], ['\n'], ['\n'], ['d'], ['d'], ['\n']] 5 true 2 0 = some 4 := by decide
+example : paraGo [['a'], ['a'], ['\n'], ['\n'], ['b'], ['b'], ['\n'], ['c'], ['c'], ['\n'], ['\n'], ['d'], ['d'], ['\n']] 5 true 3 0 = some 5 := by decide
+example : paraGo [['a'], ['a'], ['\n'], ['\n'], ['b'], ['b'], ['\n'], ['c'], ['c'], ['\n'], ['\n'], ['d'], ['d'], ['\n']] 5 true 4 0 = none := by decide
+example : paraGo [['a'], ['a'], ['\n'], ['\n'], ['b'], ['b'], ['\n'], ['c'], ['c'], ['\n'], ['\n'], ['d'], ['d'], ['\n']] 5 false 1 3 = some 1 := by decide
+example : evalParagraph ⟨[['a'], ['a'], ['\n'], ['\n'], ['b'], ['\n']], 1, true, false, []⟩ true 1 true = .on 3 := by decide
+example : evalParagraph ⟨[['a'], ['a'], ['\n'], ['\n'], ['b'], ['\n']], 1, true, false, []⟩ true 2 true = .onto 4 := by decide
+
+end Vicut.Paragraph
